@@ -30,7 +30,8 @@
 (* one pointer flag - known findings D12), RecvOfOrigin (a promoted        *)
 (* method is classified by the receiver of its declaration - D12),         *)
 (* CurrentPkgName (every import is recorded under the current package's    *)
-(* name - D10/D11).                                                        *)
+(* name - D10/D11), SharedImports (the import table is shared by the files *)
+(* of a package).                                                          *)
 (***************************************************************************)
 EXTENDS Integers, Sequences, FiniteSets, TLC, Json
 
@@ -63,8 +64,10 @@ PlainTerms == {"int", "string", "byte", "uint8", "error", "any", "interface{}", 
 
 Quals == {"none", "declared", "diffname", "alias", "selfname", "unbound"}
 
+\* sib = "binds": an earlier file of the same package imports, under the qualifier's name, a package that has no I
+\* (imports are file-scoped: the annotated file's own imports decide)
 Base == [qual |-> "declared", ikind |-> "iface", cptr |-> TRUE, recv |-> "value", via |-> "direct",
-         pT |-> "int", pI |-> "int", rT |-> "string", rI |-> "string", vT |-> FALSE, vI |-> FALSE, two |-> FALSE]
+         pT |-> "int", pI |-> "int", rT |-> "string", rI |-> "string", vT |-> FALSE, vI |-> FALSE, two |-> FALSE, sib |-> "none"]
 
 InitSc ==
   \/ /\ Family = "param"     \* every pair of parameter types
@@ -79,8 +82,9 @@ InitSc ==
           /\ (r = "none" => v = "direct")
           /\ sc = [Base EXCEPT !.cptr = c, !.recv = r, !.via = v, !.two = t]
   \/ /\ Family = "qual"      \* qualifier resolution and interface lookup
-     /\ \E q \in Quals, k \in {"iface", "nonIface", "absent"}, c \in BOOLEAN, r \in {"value", "none"}, a \in {"int", "string"} :
-          sc = [Base EXCEPT !.qual = q, !.ikind = k, !.cptr = c, !.recv = r, !.pT = a]
+     /\ \E q \in Quals, k \in {"iface", "nonIface", "absent"}, c \in BOOLEAN, r \in {"value", "none"}, a \in {"int", "string"}, sb \in {"none", "binds"} :
+          /\ (sb = "binds" => q \in {"declared", "alias", "unbound"})
+          /\ sc = [Base EXCEPT !.qual = q, !.ikind = k, !.cptr = c, !.recv = r, !.pT = a, !.sib = sb]
 
 Init == InitSc /\ ph = "resolve" /\ bound = FALSE /\ found = FALSE /\ inms = FALSE /\ res = <<"none", {}>>
 
@@ -101,7 +105,8 @@ L1(s) == IF ~Bound(s.qual) THEN <<"IMPL01", {}>>
 \* the import table of the file: an import is found under its explicit alias, else under the imported package's declared name
 ResolveQualifier ==
   /\ ph = "resolve"
-  /\ bound' = IF "CurrentPkgName" \in Deviations
+  /\ bound' = IF "SharedImports" \in Deviations /\ sc.sib = "binds" THEN TRUE       \* the earlier file's binding is found first
+              ELSE IF "CurrentPkgName" \in Deviations
                 THEN (CASE sc.qual = "none" -> TRUE
                         [] sc.qual \in {"declared", "alias"} -> TRUE       \* alias / last path element still match
                         [] sc.qual = "diffname" -> FALSE                   \* "bar" is neither alias, recorded name (u) nor last element (go-bar)
@@ -113,7 +118,8 @@ ResolveQualifier ==
 
 LookupInterface ==
   /\ ph = "lookup"
-  /\ found' = (bound /\ sc.ikind = "iface" /\ ~(sc.qual = "selfname"))   \* resolved to some other import: no such interface there
+  /\ found' = IF "SharedImports" \in Deviations /\ sc.sib = "binds" THEN FALSE    \* ... and leads to a package without I
+              ELSE (bound /\ sc.ikind = "iface" /\ ~(sc.qual = "selfname"))       \* resolved to some other import: no such interface there
   /\ ph' = "mset"
   /\ UNCHANGED <<sc, bound, inms, res>>
 
